@@ -345,3 +345,22 @@ Proof.
   unfold sdes_wf, chunk_wf, item_wf. cbn [sdes_c_padding sdes_c_chunks ch_c_ssrc ch_c_items it_c_type].
   split; [lia|]. repeat constructor; cbn [ch_c_ssrc ch_c_items it_c_type]; try lia.
 Qed.
+
+(* the size bound of the statements above is exactly known finding D13: every accepted configuration
+   above 65536 words is written as bytes the crate's own parser rejects *)
+Theorem sdes_oversize_rejected c n :
+  sdes_wf c -> sdes_calc c = Ok n -> (262144 < N.of_nat n)%N ->
+  exists e, typed_parse VSdes (rfc_sdes c) = Err e.
+Proof.
+  intros Hwf Hc Hbig. pose proof (sdes_calc_ok c n Hc) as [Hnc [Hpm [Hf [Hm Hn]]]].
+  assert (Hlen : length (rfc_sdes c) = n).
+  { unfold rfc_sdes, rfc_header. rewrite !app_length, rfc_trailer_length, be16_length. cbn [length]. lia. }
+  cbn [typed_parse]. unfold sdes_parse.
+  pose proof (check_packet_total SDES_MIN SDES_PT (rfc_sdes c) ltac:(unfold SDES_MIN; lia)) as [Hcp|[e Hcp]];
+    rewrite Hcp; cbn [bind]; [|eauto].
+  exfalso. apply check_packet_iff in Hcp; [|unfold SDES_MIN; lia]. apply well_framed_conditions in Hcp.
+  destruct Hcp as [a [b [c0 [d [r [Hp [_ [_ [_ [Hl _]]]]]]]]]].
+  assert (Hcd : (c0 < 256 /\ d < 256)%N).
+  { unfold rfc_sdes, rfc_header, be16 in Hp. cbn [app] in Hp. injection Hp as _ _ <- <- _. lia. }
+  rewrite Hlen in Hl. lia.
+Qed.
